@@ -16,7 +16,7 @@ def record(rnd):
     r = {}
     if rnd.random() < 0.85: r['a'] = rnd.choice(KEYS_A)
     if rnd.random() < 0.8: r['b'] = rnd.choice([0, 1, 2, 'x', 'y', None, [1], {'c': 1}])
-    if rnd.random() < 0.8: r['k'] = rnd.choice(['x', 'y', '', 'é', 'x', 'y', 1, None, '=1+1', '-5', '@home', '+x'])
+    if rnd.random() < 0.8: r['k'] = rnd.choice(['x', 'y', '', 'é', 'x', 'y', 1, None, '=1+1', '-5', '@home', '+x', ' x', 'x ', ' ', 'é\u00a0', '\tx', 'X'])
     if rnd.random() < 0.5:
         r['arr'] = [rnd.choice([{'a': rnd.randint(0, 2), 'k': rnd.choice(['x', 'y'])}, rnd.randint(0, 3), 'x', [1]])
                     for _ in range(rnd.randint(0, 3))]
@@ -71,6 +71,12 @@ def pipeline_cfg(rnd, want_limit=None, allow_group=True, allow_sort=True, allow_
     if rnd.random() < 0.3:
         s, sel = rnd.choice(SETS); c['set'] = [s]
         if rnd.random() < 0.7: c['select'].append(sel)
+        if rnd.random() < 0.3:
+            # a second --set whose value mentions the first name: every --set value is calculated on its own (no name is in scope
+            # yet), whatever the order of the two options
+            extra = rnd.choice(['y2=(default :x :y "unset")', 'z2=(+ (default :x 1) 1)', '@m2=(default :x @m .a)'])
+            c['set'] = [s, extra] if rnd.random() < 0.5 else [extra, s]
+            c['select'].append({'y': ':y2=vy2', 'z': ':z2=vz2', '@': '@m2=vm2'}[extra[0]])
     if rnd.random() < 0.25: c['split'] = rnd.choice(SPLITS)
     # variables and macros are visible in --split-by as in every other option
     if c['set'] == ['x=1'] and rnd.random() < 0.4: c['split'] = '(filter .arr (!= .a :x))'
